@@ -173,8 +173,8 @@ V("O02.helpers", ["C02", "C12", "C05"], "c02_helpers", expect_verified=7,
 V("O12.arms", ["C12", "C02", "C03", "C05"], "c12_calls", expect_verified=3,
   functions=["VM::run arm Call", "VM::run arm ReturnValue", "VM::run arm Return"],
   desc="Call: base = len-1-argc, args in place, remaining locals null, callee word gone, one frame pushed with the return address, everything below base unchanged, non-function -> TypeError, argc > slots or base > 65535 -> ArgumentError. Return(Value): stack == caller's stack ++ [result], frame popped, ip/bp restored, collector roots cover stack, constants, globals, last value and the returned value")
-V("O12.4", ["C12", "C02", "C05", "C11"], "c12_callsite", expect_verified=8,
-  functions=["Compiler::compile_expression arms Expr::Call, Expr::Array, Expr::Index, Expr::Prefix, Expr::Bool, Expr::Int", "Compiler::compile_statement arms Stmt::Expr, Stmt::Return"],
+V("O12.4", ["C12", "C02", "C05", "C11"], "c12_callsite", expect_verified=11,
+  functions=["Compiler::compile_expression arms Expr::Call, Expr::Array, Expr::Index, Expr::Prefix, Expr::Bool, Expr::Int, Expr::Float, Expr::String", "Compiler::compile_statement arms Stmt::Expr, Stmt::Return, Stmt::Block"],
   desc="call site: arguments compiled left to right, then the callee (or the builtin's byte), argc == argument count <= 255; array elements left to right + count; index: target, index, IndexGet; prefix operators; literals (Int constant slot holds the literal, out-of-range literal is an error with nothing emitted); expression statement ends in Pop; antwoord outside a function is a SyntaxError with nothing emitted")
 V("O02.blocks", ["C02", "C09", "C12", "C11", "C05"], "c02_blocks", expect_verified=2,
   functions=["Compiler::compile_block_statement", "Compiler::compile_expression arm Expr::Function"],
